@@ -2,6 +2,7 @@
 EXTENDS InterruptTrace
 T3 == {"a", "b", "c"}
 FanDeps == [t \in T3 |-> IF t = "c" THEN {"a", "b"} ELSE {}]
+WideDeps == [t \in T3 |-> {}]
 ChainDeps == [t \in T3 |-> CASE t = "a" -> {} [] t = "b" -> {"a"} [] t = "c" -> {"b"}]
 TraceFileC == "interrupt_traces.json"
 ====
